@@ -10,7 +10,7 @@ from ..runner import Result, Violation
 
 PROP = "C15"
 
-NAMES = ["zzVerifUnknown", "x-unknown", "_", "Kind"]
+NAMES = ["zzVerifUnknown", "x-unknown", "_", "Kind", ""]
 PAYLOADS = [None, 1, "s", [], {"a": [1]}]
 
 
@@ -128,7 +128,61 @@ def resembling_names(props):
                 out.append(cand)
         if len(out) >= 6:
             break
-    return out[:6]
+    out = out[:6]
+    # fragments and concatenations of declared names (a key test written as a substring / prefix test)
+    names = [p["name"] for p in props]
+    frag = []
+    for n in names[:3]:
+        if len(n) >= 4:
+            frag += [n[:len(n) // 2], n[len(n) // 2:], n[1:], n[:-1], n[:1]]
+    if len(names) >= 2:
+        frag += [names[0] + names[1], names[1] + names[0]]
+    for cand in frag:
+        if cand and cand not in declared and cand not in out:
+            out.append(cand)
+    return out[:14]
+
+
+_SIBLINGS = {}
+
+
+def sibling_fragments(mm, props):
+    """Fragments of the property names that *other alternatives* of a union declare next to a structure with
+    exactly these properties (hooks tell alternatives apart by such names; a key test that is really a
+    substring / prefix test shows with a fragment).  Never a declared name of any of the alternatives."""
+    key = tuple(sorted(p["name"] for p in props))
+    if not _SIBLINGS:
+        byset = {}
+        for ok, on, path, t in mm.walk_types():
+            if t["kind"] != "or":
+                continue
+            alts = []
+            for it in t["items"]:
+                if it["kind"] in ("reference", "literal", "and"):
+                    try:
+                        ps = mm.props_of(it)
+                    except Exception:  # noqa: BLE001
+                        ps = None
+                    if ps:
+                        alts.append(tuple(sorted(p["name"] for p in ps)))
+            for a in alts:
+                for b in alts:
+                    if a != b:
+                        byset.setdefault(a, set()).update(set(b) - set(a))
+        _SIBLINGS.update(byset)
+        _SIBLINGS[("__built__",)] = set()
+    sib = _SIBLINGS.get(key, set())
+    declared = set(key)
+    out = []
+    for n in sorted(sib):
+        cands = [n[:len(n) // 2], n[len(n) // 2:], n[1:], n[:-1]] if len(n) >= 4 else [n + n]
+        for c in cands:
+            if c and c not in declared and c not in sib and c not in out:
+                out.append(c)
+    ss = sorted(sib)
+    if len(ss) >= 2:
+        out.append(ss[0] + ss[1])
+    return out[:10]
 
 
 def insert(j, path, name, payload):
@@ -188,6 +242,9 @@ def judge(mm, name, j, opts):
                 if rn not in cur:
                     node_combos.append((rn, "s"))
                     node_combos.append((rn, {"a": [1]}))
+            for rn in sibling_fragments(mm, props):
+                if rn not in cur:
+                    node_combos.append((rn, "s"))
         for uname, payload in node_combos:
             n += 1
             st, obs, jp = run_one(mm, name, j, path, uname, payload)
@@ -215,7 +272,7 @@ def _site_task(args):
     for alt in ort["items"]:
         if is_null_type(alt):
             continue
-        for slabel, v in c14.shapes(mm, vse, alt, k):
+        for slabel, v in [x for x in c14.shapes(mm, vse, alt, k, site_or=ort) if x[0] != "long"]:
             if slabel.startswith("max-") or (slabel == "pair" and not full):
                 continue
             for rname, rt, rpath in roots:
